@@ -107,7 +107,7 @@ def judge_layer_c(prop, crows):
             continue
         wit = []
         try:
-            wit = LC.playback(row)
+            wit = [] if os.environ.get("VERIF_NO_PLAYBACK") else LC.playback(row)
         except Exception as e:  # noqa
             notes.append("NOTE playback failed: %s" % e)
         mine_txt = set(f["check"].strip('"') for f in mine)
@@ -176,7 +176,7 @@ def main(prop, cfg):
             undecided.append("kani harness %s: %s" % (r["name"], (v.get("raw_tail") or "")[-300:].replace("\n", " ")))
         elif v["status"] == "fail" and r["kind"] != "contract":
             ob = "lexgen_util::%s [%s]" % (r["name"], "; ".join(f["check"] for f in v["failed_checks"])[:300])
-            pb = playback_layer_b(r)
+            pb = None if os.environ.get("VERIF_NO_PLAYBACK") else playback_layer_b(r)
             body = "Kani harness %s (fully symbolic lexer state, loop-free: complete) fails on the lexgen_util of the snapshot.\n\nfailed checks:\n%s\n\n%s\n\n---- Kani output (tail) ----\n%s" % (
                 r["name"], "\n".join("  %s  (%s:%s)" % (f["check"], f.get("file", ""), f.get("line", "")) for f in v["failed_checks"]),
                 pb or "no concrete playback available", r["output"][-3000:])
